@@ -190,6 +190,48 @@ func VerifC07_storage_faults() {
 	_ = backends.NewFileSystemCache
 }
 
+// faults and losses while restoring: a cached result whose blobs cannot all be read (transient read
+// fault, or a blob that disappeared from the store) must not be reported as restored with parts
+// missing: the build falls back to execution and the workspace ends up correct
+func VerifC07_restore_faults() {
+	w := newWorld()
+	content := "v1" // the damage, not the bytes, is what varies here
+	c07Commands(content)
+	t := c07Target()
+	p := w.newProcess(true, config.LoadOutputsAll, t)
+	_, err := p.run(w.ctx, t)
+	sym.Assert(err == nil, "C07.setup.first-build")
+	_ = os.RemoveAll(wsPath("p/dist"))
+	_ = os.Remove(wsPath("p/out.txt"))
+	cas := filepath.Join(cacheDir(), "cas")
+	lost := false
+	if flag("lose_a_blob") {
+		names := listDir(cas)
+		k := sym.Choice("lost_blob", 4)
+		if k < len(names) {
+			_ = os.Remove(filepath.Join(cas, names[k]))
+			lost = true
+		}
+	} else {
+		sym.Faults(1, cas, "open,read")
+	}
+	t2 := c07Target()
+	p2 := w.newProcess(true, config.LoadOutputsAll, t2)
+	_, err2 := p2.run(w.ctx, t2)
+	injected := sym.FaultsInjected()
+	sym.Faults(0, "", "")
+	if lost || injected > 0 {
+		sym.Reach("C07.restore-fault.damaged")
+	}
+	sym.Assert(err2 == nil, "C07.A4.build-over-damaged-store-succeeds")
+	for f, want := range map[string]string{"p/out.txt": content, "p/dist/a": "aa", "p/dist/sub/b": content} {
+		got, ok := readWS(f)
+		sym.Assert(ok && sym.StrEq(got, want), "C07.A4.outputs-correct-over-damaged-store")
+	}
+	auditCache("C07.after-restore-fault")
+	sym.Reach("C07.restore-fault")
+}
+
 // two targets of one build produce the same bytes; a storage fault hits the first blob write.
 // The second target's result must not become visible while its blob is missing.
 func VerifC07_shared_digest_fault() {
